@@ -173,11 +173,13 @@ def main():
         cli(sys.argv, mode='output')
 
     except ValueError as e:
-        error_msg("GRAPH ERROR: " + str(e))
+        with msg_prefix('c '):
+            error_msg("GRAPH ERROR: " + str(e))
         sys.exit(-1)
 
     except CLIError as e:
-        error_msg(str(e))
+        with msg_prefix('c '):
+            error_msg(str(e))
         sys.exit(-1)
 
     except InternalBug as e:
